@@ -5,6 +5,7 @@ use crypto_bigint::{
 };
 
 pub const OPS: &[&str] = &[
+    "recip.new",
     "uint.div_rem_limb", "uint.div_rem_limb.recip", "uint.div_rem_limb.trait", "uint.div_rem_limb.trait_recip",
     "uint.rem_limb", "uint.rem_limb.recip", "uint.rem_limb.trait", "uint.rem_limb.trait_recip",
     "uint.rem_limb.op_vv", "uint.rem_limb.op_vr", "uint.rem_limb.op_rv", "uint.rem_limb.op_rr",
@@ -229,7 +230,21 @@ fn boxed_ops(op: &str, a: &Args) -> Option<Out> {
     }
 }
 
+/// Reciprocal has no accessors for its fields; its derived Debug output exposes them.
+fn recip_fields(d: u64) -> Option<Out> {
+    let s = format!("{:?}", Reciprocal::new(nzl(d)));
+    let num = |key: &str| -> u64 {
+        let i = s.find(key).expect("Reciprocal Debug format") + key.len();
+        let rest: String = s[i..].chars().skip_while(|c| !c.is_ascii_digit()).take_while(|c| c.is_ascii_digit()).collect();
+        rest.parse().expect("Reciprocal Debug number")
+    };
+    Some(Out::Val(vec![vec![num("divisor_normalized")], vec![num("shift")], vec![num(" reciprocal")]]))
+}
+
 pub fn run(op: &str, a: &Args) -> Option<Out> {
+    if op == "recip.new" {
+        return recip_fields(sc(a, 0));
+    }
     if op.starts_with("boxed.") {
         return boxed_ops(op, a);
     }
